@@ -19,7 +19,9 @@ import (
 // C19 (b) — the automatic selector obeys its constraints.
 //
 // Explicit-state BFS over the REAL ConfigSelector (driver "selector-bfs") and over the real
-// WorkloadDetector + ConfigSelector + SmartRebalancer.Evaluate (driver "evaluate-bfs").
+// WorkloadDetector + ConfigSelector + SmartRebalancer.Evaluate (driver "evaluate-bfs": every
+// operation chooses its own clock step; and "evaluate-bfs/uniform-clock-step": one clock step
+// per sequence, which reaches sample sizes >= 10 and therefore confidences >= 0.5).
 //
 // How time enters: all three components take a `Clock` interface (detector.go:175;
 // WithClock / WithSelectorClock / WithRebalancerClock). The harness injects one fake clock
@@ -660,7 +662,11 @@ type vfC19BNode struct {
 	path []byte
 }
 
-func vfC19EvaluateCfg(r *vkit.Run, cfgIdx int, cfg vfC19BCfg, maxDepth int, maxStates int) *vfC19Res {
+// uniform == false: every step chooses its clock step freely (9-letter alphabet).
+// uniform == true: the clock step is chosen once per sequence (all operation sequences x 3
+// constant inter-operation gaps); the chosen gap is then part of the canonical state, because
+// it restricts the letters enabled later.
+func vfC19EvaluateCfg(r *vkit.Run, cfgIdx int, cfg vfC19BCfg, maxDepth int, maxStates int, uniform bool) *vfC19Res {
 	res := vfC19NewRes()
 	if cfg.p%vfC19Unit != 0 {
 		res.harnessErr = "stability period must be a multiple of window/10"
@@ -693,6 +699,19 @@ func vfC19EvaluateCfg(r *vkit.Run, cfgIdx int, cfg vfC19BCfg, maxDepth int, maxS
 	}
 	root := vfC19NewSys(cfg)
 	frontier := []vfC19BNode{{key: root.key()}}
+	keyOf := func(s *vfC19Sys, path []byte, a byte) string {
+		if !uniform {
+			return s.key()
+		}
+		if len(path) > 0 {
+			a = path[0]
+		}
+		return string([]byte{'0' + a%3}) + s.key()
+	}
+	driver := "evaluate-bfs"
+	if uniform {
+		driver = "evaluate-bfs/uniform-clock-step"
+	}
 	seen := map[string]struct{}{frontier[0].key: {}}
 	type nodeOut struct {
 		succ [9]string
@@ -700,11 +719,11 @@ func vfC19EvaluateCfg(r *vkit.Run, cfgIdx int, cfg vfC19BCfg, maxDepth int, maxS
 	}
 	for depth := 0; depth < maxDepth && len(frontier) > 0; depth++ {
 		if r.Expired() {
-			res.capped = fmt.Sprintf("evaluate-bfs: time budget used up at depth %d of %d", depth, maxDepth)
+			res.capped = fmt.Sprintf("%s: time budget used up at depth %d of %d", driver, depth, maxDepth)
 			break
 		}
 		if len(seen) > maxStates {
-			res.capped = fmt.Sprintf("evaluate-bfs: more than %d states at depth %d of %d", maxStates, depth, maxDepth)
+			res.capped = fmt.Sprintf("%s: more than %d states at depth %d of %d", driver, maxStates, depth, maxDepth)
 			break
 		}
 		outs := make([]nodeOut, len(frontier))
@@ -729,12 +748,15 @@ func vfC19EvaluateCfg(r *vkit.Run, cfgIdx int, cfg vfC19BCfg, maxDepth int, maxS
 					s.step(a, nil)
 				}
 				cr.traces++
-				if got := s.key(); got != nd.key {
+				if got := keyOf(s, nd.path, 0); len(nd.path) > 0 && got != nd.key {
 					cr.harnessErr = fmt.Sprintf("%s: replay of %v reached state %x, discovery recorded %x", cfg, nd.path, got, nd.key)
 					return
 				}
 				s.snapshot(&sn)
 				for a := byte(0); a < 9; a++ {
+					if uniform && len(nd.path) > 0 && a%3 != nd.path[0]%3 {
+						continue
+					}
 					s.restore(&sn)
 					fails = fails[:0]
 					so := s.step(a, &fails)
@@ -745,13 +767,13 @@ func vfC19EvaluateCfg(r *vkit.Run, cfgIdx int, cfg vfC19BCfg, maxDepth int, maxS
 						if _, ok := cr.fails[f.key]; !ok {
 							path := append(append([]byte(nil), nd.path...), a)
 							cr.fails[f.key] = &vfC19FailRec{key: f.key, pathLen: len(path), cfgIdx: cfgIdx, detail: map[string]any{
-								"driver": "evaluate-bfs", "config": cfg.String(), "why": f.why, "actions": vfC19ActionsJSON(path),
+								"driver": driver, "config": cfg.String(), "why": f.why, "actions": vfC19ActionsJSON(path),
 								"detected_workload":      so.wt.String(),
 								"state_before_last_call": map[string]any{"lastMode": string(so.pre.lastMode), "lastDecisionTime": vfC19Rel(so.pre.lastTime), "now": vfC19Rel(s.clk.t)},
 								"strategy_answer":        vfC19DecisionJSON(so.base), "returned": vfC19DecisionJSON(so.out)}}
 						}
 					}
-					outs[ni].succ[a] = s.key()
+					outs[ni].succ[a] = keyOf(s, nd.path, a)
 				}
 			}
 		})
@@ -773,6 +795,9 @@ func vfC19EvaluateCfg(r *vkit.Run, cfgIdx int, cfg vfC19BCfg, maxDepth int, maxS
 		for ni := range frontier {
 			for a := 0; a < 9; a++ {
 				k := outs[ni].succ[a]
+				if k == "" {
+					continue
+				}
 				if _, ok := seen[k]; ok {
 					continue
 				}
@@ -867,7 +892,8 @@ func TestVerif_C19(t *testing.T) {
 	r.Rule("selector-bfs: for every constraint setting (8 allowed-mode subsets x minConfidence {0,.5,.7,1} x P {0,30s}) BFS to fixpoint over the canonical " +
 		"state (real lastMode, capped age of lastDecisionTime, monitor); one transition = one SelectConfig call on the real selector with one of 576 observations " +
 		"(6 workload types x sample {0,5,10,50,100,1000} x delete ratio {0,.04,.3,.7} x burst x file size {1MB,600MB}) x clock step {0,P/2,P-1ns,P,2P}; " +
-		"evaluate-bfs: level BFS over (in-window event multiset, selector, monitor); one transition = clock step {0,window/10,window} + RecordOperation{read,write,delete} + SmartRebalancer.Evaluate; " +
+		"evaluate-bfs: level BFS over (in-window event multiset, selector, monitor); one transition = clock step {0,window/10,window} + RecordOperation{read,write,delete} + SmartRebalancer.Evaluate, " +
+		"clock step free per operation to depth 8 (quick) / 10 (thorough) and fixed per sequence to depth 12; " +
 		"every transition is checked against invariants (1)-(4) of the statement and a reference model of the gates; every (constraints,state,letter) is distinct by construction")
 	r.Assume("RuleBasedStrategy.Select is a pure function of (features, workload type); used as the oracle's source of the ungated answer (a divergence would show as model-divergence)")
 	r.Assume("clock is monotone (steps >= 0) and never returns the zero time")
@@ -916,21 +942,64 @@ func TestVerif_C19(t *testing.T) {
 		"transitions": resA[len(cfgs)-1].transitions, "observation": grid[len(grid)-1].json(15 * time.Second)})
 
 	// ---- driver B
-	depth, maxStates := 8, 3_000_000
-	var bcfgs []vfC19BCfg
 	lazy, incr, none := 2, 4, 1
 	P := 3 * vfC19Unit
 	big, small := uint64(600<<20), uint64(1<<20)
-	if r.Thorough() {
-		depth, maxStates = 12, 12_000_000
-		for mask := 0; mask < 8; mask++ {
-			for _, mc := range []float64{0, 0.4, 0.5} {
-				bcfgs = append(bcfgs, vfC19BCfg{vfC19Cfg{mask, mc, P}, big})
+	runB := func(prefix string, bcfgs []vfC19BCfg, depth, maxStates int, uniform bool) (*vfC19Res, []string) {
+		tot := vfC19NewRes()
+		for i, c := range bcfgs {
+			x := vfC19EvaluateCfg(r, i, c, depth, maxStates, uniform)
+			tot.merge(x)
+			if x.harnessErr != "" && harnessErr == "" {
+				harnessErr = x.harnessErr
+			}
+			if x.capped != "" {
+				r.Cap(x.capped + " [" + c.String() + "]")
+			}
+			for _, f := range x.fails {
+				all = append(all, f)
+			}
+			if i == 0 {
+				r.Sample(map[string]any{"driver": prefix, "config": c.String(), "states": x.states, "transitions": x.transitions, "depth": x.maxDepth})
 			}
 		}
-		bcfgs = append(bcfgs, vfC19BCfg{vfC19Cfg{0, 0, 0}, big}, vfC19BCfg{vfC19Cfg{0, 0, P}, small}, vfC19BCfg{vfC19Cfg{lazy, 0.4, P}, small})
+		r.Set(prefix+"_configs", len(bcfgs))
+		r.Set(prefix+"_depth_bound", depth)
+		vfC19Publish(r, prefix, tot)
+		wl := []string{}
+		for w := WorkloadUnknown; w <= WorkloadAppendOnly; w++ {
+			if tot.workloads[w] > 0 {
+				wl = append(wl, fmt.Sprintf("%s:%d", w, tot.workloads[w]))
+			}
+		}
+		r.Set(prefix+"_workload_types_detected", wl)
+		fmt.Printf("NOTE C19 %s: %d configs, depth<=%d, %d states, %d transitions; gates: low-confidence %d (forced none %d), not-allowed %d (changed answer %d), stability-held %d, accepted %d (mode changes %d); %d distinct (mode,confidence) decisions; workloads %v\n",
+			prefix, len(bcfgs), tot.maxDepth, tot.states, tot.transitions, tot.branch[0], tot.confForcedNone, tot.branch[1], tot.allowedChanged, tot.branch[2], tot.branch[3], tot.modeChanges, len(tot.decisions), wl)
+		return tot, wl
+	}
+	// free clock step per operation (9 letters): depth 8 quick / 10 thorough (the state count
+	// grows ~4.6x per level: ~0.3M states per config at depth 8, ~6M at depth 10, ~130M at 12);
+	// one clock step per sequence (all 3^k operation sequences x 3 gaps): depth 12 in both tiers.
+	var free, uni []vfC19BCfg
+	freeDepth, uniDepth, maxStates := 8, 12, 3_000_000
+	if r.Thorough() {
+		freeDepth, uniDepth, maxStates = 10, 12, 40_000_000
+		for mask := 0; mask < 8; mask++ {
+			for _, mc := range []float64{0, 0.4} {
+				free = append(free, vfC19BCfg{vfC19Cfg{mask, mc, P}, big})
+			}
+		}
+		free = append(free, vfC19BCfg{vfC19Cfg{0, 0, 0}, big}, vfC19BCfg{vfC19Cfg{0, 0, P}, small}, vfC19BCfg{vfC19Cfg{none, 0, P}, small})
+		for mask := 0; mask < 8; mask++ {
+			for _, mc := range []float64{0, 0.4, 0.5, 0.7} {
+				for _, p := range []time.Duration{0, P} {
+					uni = append(uni, vfC19BCfg{vfC19Cfg{mask, mc, p}, big})
+				}
+			}
+		}
+		uni = append(uni, vfC19BCfg{vfC19Cfg{0, 0, P}, small}, vfC19BCfg{vfC19Cfg{0, 0.5, P}, small})
 	} else {
-		bcfgs = []vfC19BCfg{
+		free = []vfC19BCfg{
 			{vfC19Cfg{0, 0, P}, big},
 			{vfC19Cfg{0, 0.4, P}, big},
 			{vfC19Cfg{lazy, 0, P}, big},
@@ -940,34 +1009,15 @@ func TestVerif_C19(t *testing.T) {
 			{vfC19Cfg{0, 0, P}, small},
 			{vfC19Cfg{none, 0, P}, small},
 		}
-	}
-	totB := vfC19NewRes()
-	for i, c := range bcfgs {
-		x := vfC19EvaluateCfg(r, i, c, depth, maxStates)
-		totB.merge(x)
-		if x.harnessErr != "" && harnessErr == "" {
-			harnessErr = x.harnessErr
-		}
-		if x.capped != "" {
-			r.Cap(x.capped)
-		}
-		for _, f := range x.fails {
-			all = append(all, f)
-		}
-		if i == 0 {
-			r.Sample(map[string]any{"driver": "evaluate-bfs", "config": c.String(), "states": x.states, "transitions": x.transitions, "depth": x.maxDepth})
+		uni = []vfC19BCfg{
+			{vfC19Cfg{0, 0, P}, big},
+			{vfC19Cfg{0, 0.5, P}, big},
+			{vfC19Cfg{lazy, 0.4, P}, big},
+			{vfC19Cfg{none | incr, 0.5, P}, big},
 		}
 	}
-	r.Set("evaluate_configs", len(bcfgs))
-	r.Set("evaluate_depth_bound", depth)
-	vfC19Publish(r, "evaluate", totB)
-	wl := []string{}
-	for w := WorkloadUnknown; w <= WorkloadAppendOnly; w++ {
-		if totB.workloads[w] > 0 {
-			wl = append(wl, fmt.Sprintf("%s:%d", w, totB.workloads[w]))
-		}
-	}
-	r.Set("evaluate_workload_types_detected", wl)
+	runB("evaluate", free, freeDepth, maxStates, false)
+	runB("evaluate_uniform", uni, uniDepth, maxStates, true)
 
 	if harnessErr != "" {
 		r.Fail("harness/replay-mismatch", map[string]any{"what": harnessErr,
@@ -976,6 +1026,4 @@ func TestVerif_C19(t *testing.T) {
 	vfC19Report(r, all)
 	fmt.Printf("NOTE C19 selector-bfs: %d settings, %d states, %d transitions, depth<=%d; gates: low-confidence %d (forced none %d), not-allowed %d (changed answer %d), stability-held %d, accepted %d (mode changes %d); %d distinct (mode,confidence) decisions; %d distinct strategy answers on the grid\n",
 		len(cfgs), totA.states, totA.transitions, totA.maxDepth, totA.branch[0], totA.confForcedNone, totA.branch[1], totA.allowedChanged, totA.branch[2], totA.branch[3], totA.modeChanges, len(totA.decisions), len(classes))
-	fmt.Printf("NOTE C19 evaluate-bfs: %d configs, depth<=%d, %d states, %d transitions; gates: low-confidence %d (forced none %d), not-allowed %d (changed answer %d), stability-held %d, accepted %d (mode changes %d); %d distinct (mode,confidence) decisions; workloads %v\n",
-		len(bcfgs), totB.maxDepth, totB.states, totB.transitions, totB.branch[0], totB.confForcedNone, totB.branch[1], totB.allowedChanged, totB.branch[2], totB.branch[3], totB.modeChanges, len(totB.decisions), wl)
 }
